@@ -219,6 +219,18 @@ CLAIMED: dict[str, tuple[str, str, str, str, str]] = {
         "MOD-style who-may-write enumeration against a reviewed table + must-call ordering on the CFG",
         "DESIGN §5 C11",
     ),
+    "C08": (
+        "other",
+        "Decides the obligations the accept/reject boundary rests on: the C09 dataflow obligations (re-run here), analyze "
+        "called before its results are used in all three callers, the set of locals built from all blocks, truth tables of the "
+        "two 'not defined' predicates of check_bb (entry block and along edges) over the membership atoms, every successor edge "
+        "incl. dummy ones examined, and two CFG-construction rules (dead code hangs off the jumping block; symmetric pruning). "
+        "That the CFG has exactly Python's paths, and the path-dependent-type clause (check_rows_match), are not decided.",
+        "Trusted: ast parser; lexical guard extraction (if/elif/else, early continue/raise) as the condition for reaching a raise; "
+        "diagnostic-flavour guards are treated existentially.",
+        "guard truth tables + def-before-use/dominance on the CFG + dataflow-framework obligations (shared with C09)",
+        "DESIGN §5 C08",
+    ),
 }
 
 NOT_APPLICABLE: dict[str, str] = {
